@@ -179,3 +179,22 @@ Proof.
   split; [vm_compute; reflexivity|]. split; [vm_compute; reflexivity|].
   apply sched_reaches_stuck with (s := [0; 1]). vm_compute. reflexivity.
 Qed.
+
+(** *** every lock site must respect the order, also the ones outside the batch / transaction paths.
+    A core.Dataset writer that takes the lock of the dataset named in the meta entity it stores (an
+    edge core.Dataset -> X) is not [ordered]; together with an ordinary batch into X (X -> core.Dataset
+    for the items counter) a deadlock is reachable. *)
+Definition setns_locking_target (d : N) : list instr :=
+  [Acq LCore; Read LCore; Commit [(LCore, [d])]; Acq (LDs d); Rel (LDs d); Rel LCore].
+
+Lemma setns_locking_not_ordered d : ~ ordered [] (setns_locking_target d).
+Proof. cbn. intros (_ & H & _). specialize (H LCore (or_introl eq_refl)). discriminate. Qed.
+
+Lemma refuted_core_then_dataset :
+  ordered [] (batch_prog (wit_part (LDs 1) 1%N)) /\ ~ ordered [] (setns_locking_target 1) /\
+  exists c, steps (init_config [batch_prog (wit_part (LDs 1) 1%N); setns_locking_target 1]) c
+            /\ terminal c = false /\ forall c', ~ step c c'.
+Proof.
+  split; [apply ordered_batch; reflexivity|]. split; [apply setns_locking_not_ordered|].
+  apply sched_reaches_stuck with (s := [0; 0; 0; 1; 1; 1]). vm_compute. reflexivity.
+Qed.
